@@ -992,6 +992,27 @@ func init() {
 		}
 		return bytesVal(ip)
 	}
+	// net.IP / net.IPMask String on concrete bytes: host call (the std code goes
+	// through net/netip, whose package state is not initialised here)
+	natives["(net.IP).String"] = func(fr *frame, a []value) value {
+		b, ok := a[0].([]value)
+		if !ok || b == nil {
+			return net.IP(nil).String()
+		}
+		for _, x := range b {
+			if isSym(x) {
+				unsupported("net.IP.String of a symbolic address")
+			}
+		}
+		return net.IP(concBytes(b)).String()
+	}
+	natives["(net.IPMask).String"] = func(fr *frame, a []value) value {
+		b, ok := a[0].([]value)
+		if !ok || b == nil {
+			return net.IPMask(nil).String()
+		}
+		return net.IPMask(concBytes(b)).String()
+	}
 	// ---------------- tracing ----------------
 	startSpan := func(fr *frame, a []value) value {
 		tp := fr.i.prog.ImportedPackage("go.opentelemetry.io/otel/trace")
